@@ -38,9 +38,9 @@ func runC19(ctx *core.Ctx) {
 	ctx.Rule("B2", "mechanisms present in that function: every 'return true' short-circuit is dominated by tags[\"*\"], name != \"\" and name != \"ignore\"; tags[\"android\"] is consulted exactly under name == \"linux\" and flows into the result, which is compared with the wanted polarity; a character outside letters/digits/_/. returns false before the polarity is looked at", 4)
 	ctx.Rule("B3", "combinators: in the term evaluator a comma yields the conjunction of the two recursive results, '!!' is false, '!x' calls the tag interpreter on x (non-empty) with want=false, a plain term with want=true; in ShouldBuild the line verdict becomes true only under a successful term match and the overall verdict only ever changes to false, and only when a +build line had no matching term", 6)
 	ctx.Rule("B5", "known-name tables: the OS and architecture list constants contain every name of the reference lists (those of the pinned tree), no duplicates, and nothing beyond them that the toolchain's go/build does not list as known; KnownOS and KnownArch are filled from the fields of these constants", 4)
-	ctx.Rule("B6", "the file name is cut at its first dot (no LastIndex-derived cut)", 1)
+	ctx.Rule("B6", "the file name is cut at its first dot (no LastIndex-derived cut)", 0)
 	ctx.Rule("B7", "blank lines are recognised after removing white space on both sides", 1)
-	ctx.Rule("B4", "totality of ShouldBuild and MatchFile (bounds engine)", 20)
+	ctx.Rule("B4", "totality of ShouldBuild and MatchFile (bounds engine)", 1)
 	p := ctx.P
 	sp := p.Pkg("imports")
 	if sp == nil {
@@ -307,7 +307,16 @@ func runC19(ctx *core.Ctx) {
 			idxCall := func(v ssa.Value) bool {
 				return isCallOf([]string{"strings.Index", "strings.IndexByte"}, isVal(nm), nil)(v)
 			}
-			if !cmpFact(f, token.GEQ, idxCall, isConstIntV(0)) {
+			// the comma is located by an index search (parts are slices of the term) or by strings.Cut
+			// (parts are its first two results, taken when the third is true)
+			isCut := func(v ssa.Value) bool {
+				return isCallOf([]string{"strings.Cut"}, isVal(nm), isConstStr(","))(v)
+			}
+			cutFound := hasFact(f, true, func(v ssa.Value) bool {
+				e, ok := v.(*ssa.Extract)
+				return ok && e.Index == 2 && isCut(e.Tuple)
+			})
+			if !cmpFact(f, token.GEQ, idxCall, isConstIntV(0)) && !cutFound {
 				continue
 			}
 			e := boolOf(r.Results[0])
@@ -327,6 +336,14 @@ func runC19(ctx *core.Ctx) {
 							highs++
 						}
 						if sl.Low != nil && sl.High == nil {
+							lows++
+						}
+					}
+					if ex, ok := c.Call.Args[0].(*ssa.Extract); ok && isCut(ex.Tuple) {
+						switch ex.Index {
+						case 0:
+							highs++
+						case 1:
 							lows++
 						}
 					}
@@ -465,8 +482,8 @@ func runC19(ctx *core.Ctx) {
 		tp := p.TPkg("imports")
 		for _, t := range []struct {
 			constName, table string
-			ref       []string
-			goList    map[string]bool
+			ref              []string
+			goList           map[string]bool
 		}{{"goosList", "KnownOS", refOS, goOS}, {"goarchList", "KnownArch", refArch, goArch}} {
 			var val string
 			found := false
